@@ -1515,6 +1515,11 @@ M("SEED-C17-h", ["C17"], [("@patch", "seeded/C17-h/patch.diff", "")], ["C17/used
 M("SEED-C18-h", ["C18"], [("@patch", "seeded/C18-h/patch.diff", "")], ["C18/final-ack/PubComp/remove-then-report"])
 M("SEED-C19-h", ["C19"], [("@patch", "seeded/C19-h/patch.diff", "")], ["C19/qos/per-connection/max_qos"])
 M("SEED-C20-h", ["C20"], [("@patch", "seeded/C20-h/patch.diff", "")], ["C20/target/reply_owned"])
+M("SEED-C01-i", ["C01"], [("@patch", "seeded/C01-i/patch.diff", "")], ["C01/len16/Utf8String"])
+M("SEED-C03-i", ["C03"], [("@patch", "seeded/C03-i/patch.diff", "")], ["C03/rel/pubrec-reaches-removal"])
+M("SEED-C05-i", ["C05"], [("@patch", "seeded/C05-i/patch.diff", "")], ["C05/status/table"])
+M("SEED-C07-i", ["C07"], [("@patch", "seeded/C07-i/patch.diff", "")], ["C07/fresh/pending_release"])
+M("SEED-C11-i", ["C11"], [("@patch", "seeded/C11-i/patch.diff", "")], ["C11/entry/first-decision/subscribe"])
 M("SEED-C02-i", ["C02"], [("@patch", "seeded/C02-i/patch.diff", "")], ["C02/store/set_written"])
 M("SEED-C04-i", ["C04"], [("@patch", "seeded/C04-i/patch.diff", "")], ["C04/once/deliver-implies-recorded"])
 M("SEED-C06-i", ["C06"], [("@patch", "seeded/C06-i/patch.diff", "")], ["C06/init/connack-walk-complete"])
@@ -1651,6 +1656,8 @@ KNOWN_LIMITS = {
         ['C08/panic/', 'C08/varint/reader-probe']),
     'RF6-C15-c-repaired': ('the write step carries only the unsent tail (`pending`) and the recorded progress is `len - pending + written`: a re-representation of the (bytes, written, len) triple the write clauses compare',
         ['C01/store/step-accumulates', 'C02/store/step-accumulates', 'C02/write/', 'C04/store/step-accumulates', 'C13/store/step-accumulates', 'C15/store/step-accumulates', 'C15/write/']),
+    'RF6-C03-i-repaired': ('a room test `inflight_publishes() <= max_inflight()` with an early error return stays in front of the retained removal: it can never fail (the count never exceeds the capacity), which is a fact about values, not about the shape of the arm',
+        ['C03/rel/pubrec-reaches-removal']),
     'RF6-C04-i-repaired': ('the capacity test is made up front with `is_full()` and the result of the push is then discarded (`let _ = push(..)`, "cannot fail"): that the push succeeds follows from an invariant of heapless::Vec the rule does not model -- it accepts a delivery only over the success edge of the recording call',
         ['C04/once/deliver-implies-recorded']),
     'RF6-C13-i-repaired': ('`set_written(written, len)` becomes `advance(count, len)`: the running total is formed inside the state machine from its own recorded value instead of by the caller -- a re-representation of the recorded quantity the store clauses compare',
